@@ -156,6 +156,14 @@ func gen(h *lp.H, do func(string) string, im *impl) {
 		h.Op(fmt.Sprintf("concurrent %d %s", k, pol), out)
 		h.Distinct(fmt.Sprintf("conc/%d/%s/%d", k, pol, c))
 	}
+	// ---- state snapshots while chunks are being cut (oracle only): many cuts, pollers on other cores
+	for c := 0; c < 2 && !h.TooMany(); c++ {
+		pol := []string{"immediate", "size:16"}[c%2]
+		h.Case(fmt.Sprintf("statehammer %d policy=%s", c, pol))
+		out := im.concurrent(h, 4, 1200, pol, rng.Int63())
+		h.Op(fmt.Sprintf("concurrent 4 %s", pol), out)
+		h.Distinct(fmt.Sprintf("statehammer/%s", pol))
+	}
 	// ---- writers racing with Close (oracle only)
 	for c := 0; c < h.N/40+3 && !h.TooMany(); c++ {
 		k := 6 + rng.Intn(11)
